@@ -10,6 +10,8 @@
      services/snmp/snmp.go + Logicalis/asn1 decodeLength / go-asn1-ber readLength:
         the length-driven allocation of the first TLV
      services/echo.go, ntp.go, dns.go behind server.TimeoutConn (the type tests fail)
+   The model follows the code after the fix: commits 1603afd (ssh loop stops on a decoder
+   error), 4aa01bd (vnc pusher recovers), 9cc3ebb (tftp mutex), 4b4eb8c (dns decodes).
    Everything else (net/http, x/crypto/ssh, encoding/xml/json, miekg/dns, the rest of
    the two asn1 libraries, the Go runtime) is not modelled: see props/C01.json. *)
 From HT Require Import Common.Bytes C17.Model.
@@ -62,7 +64,7 @@ Definition process_alive (e : conn_end) : bool :=
 Definition goroutines : list (N * N * bool * bool) :=
   [ (24, 91, true, true)      (* vnc.go: go c.serve() *)
   ; (24, 103, false, false)   (* vnc.go: frame feeder (channel ops only) *)
-  ; (24, 481, false, true)    (* rfb.go: go c.pushFramesLoop() -> pushImage -> failf *)
+  ; (24, 481, true, true)     (* rfb.go: go c.pushFramesLoop() -> pushImage -> failf; recovers (4aa01bd) *)
   ; (10, 120, false, false)   (* ftp.go: event pump over s.recv *)
   ; (10, 178, false, false)   (* ftp/socket.go: passive accept *)
   ; (18, 126, false, false)   (* smtp.go: event pump *)
@@ -72,6 +74,14 @@ Definition goroutines : list (N * N * bool * bool) :=
 
 Definition unguarded (g : N * N * bool * bool) : bool :=
   let '(_, _, rec, pan) := g in negb rec && pan.
+
+(* has the goroutine started at (service, line) a recover of its own? (absent: no) *)
+Definition goroutine_recovers (svc line : N) : bool :=
+  existsb (fun g => let '(s, l, rec, _) := g in (s =? svc)%N && (l =? line)%N && rec) goroutines.
+
+(* a panic inside a goroutine the service started: confined iff that goroutine recovers *)
+Definition spawned_panic (svc line site : N) : res :=
+  if goroutine_recovers svc line then ROk else RFatal site.
 
 (* ------------------------------------------------------------------ *)
 (* 2. ssh-simulator: payloadDecoder.String and the env / exec loops     *)
@@ -86,13 +96,15 @@ Definition pd_string (d : dec) : dec * bytes :=
 
 Inductive loop_res := Done (payloads : list bytes) | OutOfFuel (payloads : list bytes).
 
-(* for { if Available() == 0 { break }; payloads = append(payloads, String()) }
+(* for { if Available() == 0 { break }; payload := String();
+         if LastError() != nil { break }; payloads = append(payloads, payload) }
    [acc] is the slice built so far, newest first *)
 Fixpoint ssh_loop (fuel : nat) (d : dec) (acc : list bytes) : loop_res :=
   match fuel with
   | O => OutOfFuel acc
   | S f => if avail d =? 0 then Done acc
-           else let '(d', s) := pd_string d in ssh_loop f d' (s :: acc)
+           else let '(d', s) := pd_string d in
+                if d_err d' then Done acc else ssh_loop f d' (s :: acc)
   end.
 
 Definition ssh_fuel (payload : bytes) : nat := S (length payload).
@@ -113,8 +125,6 @@ Fixpoint ssh_requests (rs : list (N * bytes)) : res :=
   | (ty, p) :: r => match ssh_request ty p with ROk => ssh_requests r | x => x end
   end.
 
-(* the class of payloads on which the loop cannot end: the walk arrives at 1..3 bytes *)
-Definition ssh_stuck_state (d : dec) : bool := (1 <=? avail d) && (avail d <=? 3).
 
 (* ------------------------------------------------------------------ *)
 (* 3. tftp: Handle's operations on the shared [buffers] map             *)
@@ -123,44 +133,49 @@ Inductive mop :=
 | MOther      (* anything that is not a map access *)
 | MRead       (* lookup *)
 | MWBegin     (* map assignment / delete enters (sets the writing flag) *)
-| MWEnd.      (* ... and leaves *)
+| MWEnd       (* ... and leaves *)
+| MLock       (* s.mu.Lock(): blocks while another goroutine holds the mutex *)
+| MUnlock.
 
 (* packet kinds: 1 RRQ, 2 WRQ, 3 DATA, 4 ACK, 5 ERROR, other; [has] = a buffer exists for
    the sender, [last] = DATA shorter than 512 bytes; [parsed] = the strings were read *)
 Definition tftp_prog (kind : N) (parsed has last : bool) : list mop :=
   if (kind =? 2)%N then
-    if parsed then [MOther; MOther; MWBegin; MWEnd] else [MOther]
+    if parsed then [MOther; MOther; MLock; MWBegin; MWEnd; MUnlock] else [MOther]
   else if (kind =? 3)%N then
     if negb parsed then [MOther]
-    else if negb has then [MRead; MOther]
-    else [MRead; MRead; MRead; MOther] ++ (if last then [MRead; MWBegin; MWEnd; MOther] else [])
+    else [MLock; MRead] ++ (if has && last then [MWBegin; MWEnd] else []) ++ [MUnlock; MOther]
   else [MOther].
 
-Record tstate := mkT { t_threads : list (list mop); t_writing : bool }.
+Record tstate := mkT { t_threads : list (list mop); t_writing : bool; t_owner : option nat }.
 
 Inductive tres := TRun (s : tstate) | TFatal.
 
-Fixpoint pop_thread (i : nat) (ts : list (list mop)) : option (mop * list (list mop)) :=
-  match ts, i with
-  | [], _ => None
-  | t :: r, O => match t with [] => None | o :: t' => Some (o, t' :: r) end
-  | t :: r, S j => match pop_thread j r with
-                   | Some (o, r') => Some (o, t :: r')
-                   | None => None
-                   end
+Fixpoint set_nth {A} (i : nat) (x : A) (l : list A) : list A :=
+  match l, i with
+  | [], _ => []
+  | _ :: r, O => x :: r
+  | y :: r, S j => y :: set_nth j x r
   end.
 
-(* one scheduler choice: thread [i] performs its next operation.  The runtime's check:
-   any access while another goroutine is inside a write is a fatal error. *)
+(* one scheduler choice: thread [i] performs its next operation (a thread waiting for
+   the mutex does not move).  The runtime's check: any map access while another goroutine
+   is inside a map write is a fatal error. *)
 Definition tstep (s : tstate) (i : nat) : tres :=
-  match pop_thread i (t_threads s) with
-  | None => TRun s
-  | Some (o, ts') =>
+  match nth i (t_threads s) [] with
+  | [] => TRun s
+  | o :: t' =>
+      let ts' := set_nth i t' (t_threads s) in
       match o with
-      | MOther => TRun (mkT ts' (t_writing s))
-      | MRead => if t_writing s then TFatal else TRun (mkT ts' false)
-      | MWBegin => if t_writing s then TFatal else TRun (mkT ts' true)
-      | MWEnd => TRun (mkT ts' false)
+      | MOther => TRun (mkT ts' (t_writing s) (t_owner s))
+      | MRead => if t_writing s then TFatal else TRun (mkT ts' false (t_owner s))
+      | MWBegin => if t_writing s then TFatal else TRun (mkT ts' true (t_owner s))
+      | MWEnd => TRun (mkT ts' false (t_owner s))
+      | MLock => match t_owner s with
+                 | None => TRun (mkT ts' (t_writing s) (Some i))
+                 | Some _ => TRun s
+                 end
+      | MUnlock => TRun (mkT ts' (t_writing s) None)
       end
   end.
 
@@ -170,10 +185,7 @@ Fixpoint trun (s : tstate) (sched : list nat) : tres :=
   | i :: r => match tstep s i with TFatal => TFatal | TRun s' => trun s' r end
   end.
 
-Definition has_map_op (t : list mop) : bool :=
-  existsb (fun o => match o with MOther => false | _ => true end) t.
-Definition has_write (t : list mop) : bool :=
-  existsb (fun o => match o with MWBegin => true | _ => false end) t.
+Definition t_init (ts : list (list mop)) : tstate := mkT ts false None.
 
 (* the decoded kind of a datagram the way Handle sees it *)
 Definition has_zero (l : bytes) : bool := existsb (fun b => (b =? 0)%N) l.
@@ -304,6 +316,11 @@ Definition vnc_verdict (stream : bytes) : N :=
   | VFail s => if v_danger s then 1 else 0
   end%N.
 
+(* what the connection amounts to: a failf in the pusher goroutine is a panic in a
+   goroutine the service started (rfb.go:481) *)
+Definition vnc_handle (stream : bytes) : res :=
+  if (vnc_verdict stream =? 0)%N then ROk else spawned_panic 24 481 F_VNC_PUSHER.
+
 (* ------------------------------------------------------------------ *)
 (* 5. counterstrike and adb: slicing of the received packet             *)
 
@@ -412,62 +429,111 @@ Fixpoint acc_len (acc : Z) (l : bytes) : option Z :=
   | b :: r => if 2 ^ 56 <=? acc then None else acc_len (acc * 256 + Z.of_N b) r
   end.
 
-(* None = not decided by the first header (the library goes on: not modelled) *)
-Definition snmp_first (dg : bytes) : option res :=
-  if (length dg <? 2)%nat then Some RErr
+(* what the first TLV header leads to *)
+Inductive first_tlv :=
+| TErr              (* rejected / short read before anything is allocated by a declared length *)
+| TLib              (* the declared content is there: the library goes on (not modelled) *)
+| TOver (L : Z).    (* declared length L (as Go int; negative = wrapped) exceeds what follows:
+                       make([]byte, L) runs before any of it is read *)
+
+Definition res_of_tlv (site : N) (t : first_tlv) : option res :=
+  match t with
+  | TErr => Some RErr
+  | TLib => None
+  | TOver L => let v := alloc_verdict L in
+               if (v =? 1)%N then Some (RPanic site)
+               else if (v =? 2)%N then Some (RFatal F_ALLOC)
+               else if (v =? 3)%N then None
+               else Some RErr
+  end.
+
+(* the recorded finding class: a declared length that no machine can satisfy *)
+Definition in_oom_class (t : first_tlv) : bool :=
+  match t with TOver L => (MEM_SURE <? L) && (L <=? MAXALLOC) | _ => false end.
+
+Definition snmp_tlv (dg : bytes) : first_tlv :=
+  if (length dg <? 2)%nat then TErr
   else
     match skip_ident (snmp_buf dg) with
-    | None => None
+    | None => TLib
     | Some (_, r) =>
         match r with
-        | [] => Some RErr
+        | [] => TErr
         | b :: r' =>
-            if (b <? 128)%N then (if Z.of_N b <=? zlen r' then None else Some RErr)
-            else if (b =? 128)%N then None
-            else if (b =? 255)%N then Some RErr
+            if (b <? 128)%N then (if Z.of_N b <=? zlen r' then TLib else TErr)
+            else if (b =? 128)%N then TLib
+            else if (b =? 255)%N then TErr
             else let k := Z.to_nat (Z.of_N b - 128) in
-                 if (length r' <? k)%nat then Some RErr
+                 if (length r' <? k)%nat then TErr
                  else match acc_len 0 (firstn k r') with
-                      | None => Some RErr
+                      | None => TErr
                       | Some L =>
-                          if L <=? zlen (skipn k r') then None
-                          else let v := alloc_verdict (if 2 ^ 63 <=? L then -1 else L) in
-                               if (v =? 1)%N then Some (RPanic 3)
-                               else if (v =? 2)%N then Some (RFatal F_ALLOC)
-                               else if (v =? 3)%N then None
-                               else Some RErr
+                          if L <=? zlen (skipn k r') then TLib
+                          else TOver (if 2 ^ 63 <=? L then -1 else L)
                       end
         end
     end.
 
+Definition snmp_first (dg : bytes) : option res := res_of_tlv 3 (snmp_tlv dg).
+
 (* ldap: ber.ReadPacket; a primitive first packet allocates its declared length before
    reading; length octets <= 8, value as int64 *)
-Definition ldap_first (stream : bytes) : option res :=
+Definition ldap_tlv (stream : bytes) : first_tlv :=
   match skip_ident stream with
-  | None => match stream with [] => Some RErr | _ => None end
+  | None => match stream with [] => TErr | _ => TLib end
   | Some (id, r) =>
-      if (N.land id 32 =? 32)%N then None             (* constructed: children follow (library) *)
+      if (N.land id 32 =? 32)%N then TLib             (* constructed: children follow (library) *)
       else match read_len 8 r with
            | LLong L k =>
                let L' := if 2 ^ 63 <=? L then L - 2 ^ 64 else L in
-               if (0 <=? L') && (L' <=? zlen r - 1 - k) then None
-               else if L' =? -1 then Some RErr        (* reads as LengthIndefinite: rejected for a primitive *)
-               else let v := alloc_verdict L' in
-                    if (v =? 1)%N then Some (RPanic 4)
-                    else if (v =? 2)%N then Some (RFatal F_ALLOC)
-                    else if (v =? 3)%N then None
-                    else Some RErr
-           | LShort n => if n <=? zlen r - 1 then None else Some RErr
-           | LIndef | LBad | LEof => Some RErr
+               if (0 <=? L') && (L' <=? zlen r - 1 - k) then TLib
+               else if L' =? -1 then TErr        (* reads as LengthIndefinite: rejected for a primitive *)
+               else TOver L'
+           | LShort n => if n <=? zlen r - 1 then TLib else TErr
+           | LIndef | LBad | LEof => TErr
            end
   end.
 
+Definition ldap_first (stream : bytes) : option res := res_of_tlv 4 (ldap_tlv stream).
+
+(* ldap: ber.ReadPacket calls itself once per constructed header; an indefinite-length
+   header (id, 0x80) opens a level that only an end-of-contents marker closes.  The depth
+   reached is at least the length of the leading run of such headers. *)
+Fixpoint ber_open_run (fuel : nat) (l : bytes) : Z * bytes :=
+  match fuel with
+  | O => (0, l)
+  | S f =>
+      match l with
+      | id :: 128%N :: r =>
+          if ((N.land id 32 =? 32) && negb (N.land id 31 =? 31))%N
+          then let '(n, r') := ber_open_run f r in (n + 1, r') else (0, l)
+      | _ => (0, l)
+      end
+  end.
+
+(* a stream that repeats one segment rep+1 times: the run goes on across repetitions only
+   when the segment is used up by it *)
+Definition ldap_depth (seg : bytes) (rep : Z) : Z :=
+  let '(n, rest) := ber_open_run (length seg) seg in
+  match rest with [] => n * (rep + 1) | _ => n end.
+
+Definition F_STACK := 7%N.            (* goroutine stack limit (1 GB) exceeded *)
+Definition STACK_SURE : Z := 10000000. (* this many readPacket frames cannot fit 1 GB *)
+Definition STACK_SAFE : Z := 10000.    (* ... and this many always do *)
+
+(* Some = decided by the nesting alone; None = machine/frame-size dependent *)
+Definition ldap_nest (seg : bytes) (rep : Z) : option res :=
+  let d := ldap_depth seg rep in
+  if STACK_SURE <=? d then Some (RFatal F_STACK)
+  else if d <=? STACK_SAFE then Some ROk
+  else None.
+
 (* ------------------------------------------------------------------ *)
 (* 7. echo / ntp / dns behind server.TimeoutConn                        *)
-(* the wrapper hides *DummyUDPConn from the type tests; DummyUDPConn.Read returns (0, nil)
+(* the wrapper hides *DummyUDPConn from echo's type test; DummyUDPConn.Read returns (0, nil)
    once drained, so io.Copy never ends *)
 Definition thin_udp (svc : N) : option res :=
   if (svc =? 6)%N then Some RSpin          (* echo: io.Copy(conn, conn) *)
   else if (svc =? 16)%N then Some RSpin    (* ntp: io.Copy(os.Stdout, conn) *)
-  else if (svc =? 4)%N then Some ROk       (* dns: "unsupported connection type" *)
+                                           (* dns decodes the query since 4b4eb8c (miekg/dns): not modelled *)
   else None.
